@@ -7,6 +7,7 @@ import (
 	"math"
 	"math/rand"
 	"os"
+	"os/exec"
 	"path/filepath"
 	"strconv"
 	"strings"
@@ -248,6 +249,17 @@ func init() {
 		if n == 0 || m == 0 {
 			return run.Brokenf("TLC produced no accuracy behaviours (%d dumped, %d simulated)", n, m)
 		}
+		// unbounded sizes and history length for the numeric part: an inductive invariant discharged by Apalache
+		for _, ob := range [][2]string{{"Init", "0"}, {"IndInit", "1"}} {
+			out := filepath.Join(c.Work, "apalache-"+ob[0])
+			cmd := exec.Command("timeout", "300", "apalache-mc", "check", "--init="+ob[0], "--inv=IndInv", "--length="+ob[1], "--out-dir="+out, "AccuracyInd.tla")
+			cmd.Dir = c.Work
+			b, err := cmd.CombinedOutput()
+			if err != nil || !strings.Contains(string(b), "EXITCODE: OK") {
+				return run.Brokenf("Apalache did not discharge the obligation %s => IndInv (length %s):\n%s", ob[0], ob[1], run.Tail(string(b), 15))
+			}
+		}
+		c.AddExtra("apalache_inductive_invariant", "AccuracyInd.tla: Init => IndInv and IndInv /\\ Next => IndInv' discharged (0 <= correct <= total for batches of any size and any number of calls)")
 		// every (batch size, number of matches) up to 64 (96)
 		files, err := c.Generate("Gen_C19", 1, 20*time.Minute)
 		if err != nil {
